@@ -56,7 +56,8 @@ leaves the dimensions refined so far ([None, 3] + [5, 4] raises and leaves [5, 3
 C06-merge-shapes-atomic.diff computes all merged dimensions before writing any (keeps the documented in-place update:
 502 _core tests pass; a first attempt that merged into a copy broke test_merge_shapes_modifies_value_shape_in_place).
 
-PROPOSED FIXES for the remaining known findings (not applied; each validated on a scratch worktree: 938 tests of _core,
+PROPOSED FIXES for the then-remaining known findings (the first two LANDED as /repo 680d931 and 96f5667: SGraphNew
+flipped in current_cfg, entries status=fixed, witnesses in corpus; each was validated on a scratch worktree: 938 tests of _core,
 _graph_containers, _convenience, serde, traversal and passes/common pass, and both checks run against the patched tree):
   * C06-graph-ctor-validate-first.diff (+ C06-graph-ctor-demo.py): Graph.__init__ validates inputs, outputs,
     initializers and nodes (same order, same exception types as the constructor would fail with) before adopting
@@ -87,6 +88,7 @@ from harness.props import _core_ops as C
 
 def run(ck) -> None:
     C.run_check(ck, "c06")
+    C.print_broken(ck)
     ck.level = "proof"
     ck.notes.append("C06_raise_frame proved as _partial: Graph(...) with arguments is outside in_scope")
 
